@@ -22,8 +22,11 @@ CFG = {
                  "both tiers always send the focus cells (the 17 tests on every receiver, i.e. every integer width edge i64::MIN, u64::MAX, i128::MIN/MAX, "
                  "i128::MAX+1 and u128::MAX as u128, +-0.0, NaN, +-inf, subnormals; truncate at every length 0..=chars+2 on every non-ASCII receiver with "
                  "default/empty/multi-byte end marker and lengths between the character and the byte count in every representation; trim*/split/replace/"
-                 "starting_with/ending_with/containing/indent/pluralize and the no-kwarg string filters on the lead-byte strings); quick adds the first cell of "
-                 "every (built-in, receiver kind, outcome) and (built-in, kwarg kinds, outcome) stratum and 300 uniformly drawn cells (about 8 000 in all), "
+                 "starting_with/ending_with/containing/indent/pluralize and the no-kwarg string filters on the lead-byte strings); a pattern sweep of trim/trim_start/trim_end/split/replace/"
+                 "starting_with/ending_with/containing over every word of {x,y,h}^<=5 and {CJK x3}^<=3 plus texts with permuted/partial occurrences at their ends x "
+                 "multi-character patterns (whole occurrences x0..3, permutations, middle-only, empty, longer than the receiver, receiver = pattern^n): every cell "
+                 "against an independent whole-occurrence reference on the implementation, the short words always against the model; quick adds the first cell of "
+                 "every (built-in, receiver kind, outcome) and (built-in, kwarg kinds, outcome) stratum and 300 uniformly drawn cells (about 10 000 in all), "
                  "thorough = every stratum plus a uniform draw of the other modelled cells, about 60 000 cells (C17_MODEL_CAP=0: every modelled cell, about 170 000). distinct = distinct Gallina case terms; non-trivial = not (no kwargs and receiver rejected as the wrong kind). "
                  "Implementation-side law oracles on every cell: range = exactly the progression or a justified failure (known class "
                  "range:span-overflow-refused), round never turns a finite number into NaN/inf (known class round:non-finite-result). "
